@@ -6,14 +6,25 @@ Exit 0: every obligation of the property was re-proved against the model regener
 /repo's working tree, the audit is clean and model/implementation/specification agree on
 everything explored.  Exit 1 with `VIOLATION property=<id> replay=<path>` otherwise.
 """
-import os, sys, re, json, time, argparse
+import os, sys, re, json, time, argparse, glob
 from checklib import *
 
 # ---------------------------------------------------------------------------------------------
 # property table.  kind t1: traced units + reflective theorems + correspondence.
 PROPS = {
-    'C02': dict(kind='t1', units='C02', modules=['GlmVerif.Props.C02'], corr_quick=60, corr_thorough=4000),
+    'C02': dict(kind='t1', units='C02', corr_quick=60, corr_thorough=4000),
+    'C10': dict(kind='t1', units='C10', corr_quick=300, corr_thorough=20000),
 }
+
+
+def prop_modules(prop):
+    """Props/<prop>.lean plus the per-family table modules Props/<prop>/*.lean"""
+    mods = ['GlmVerif.Props.' + prop]
+    d = os.path.join(LEAN, 'GlmVerif', 'Props', prop)
+    if os.path.isdir(d):
+        mods += sorted('GlmVerif.Props.%s.%s' % (prop, f[:-5]) for f in os.listdir(d) if f.endswith('.lean'))
+    return mods
+
 
 
 def parse_corr(out):
@@ -32,6 +43,8 @@ def is_known(known, unit, comp):
 
 def run_t1(prop, cfg, tier, seed):
     t0 = time.time()
+    cfg = dict(cfg, modules=prop_modules(prop))
+    for old in glob.glob(os.path.join(REPLAYS, prop + '-*.json')): os.remove(old)
     known = known_findings(prop)
     violations = []       # (replay payload, has_input)
     known_hits = {}
@@ -57,7 +70,7 @@ def run_t1(prop, cfg, tier, seed):
     failing, build_out, build_s = [], '', 0.0
     all_thms = []
     if not broken_tie:
-        rc, build_out, build_s = lake_build(cfg['modules'])
+        rc, build_out, build_s = lake_build(cfg['modules'][:1])
         for mod in cfg['modules']:
             f = os.path.join(LEAN, mod.replace('.', '/') + '.lean')
             ns, names = theorems_in(f)
@@ -170,7 +183,7 @@ def run_t1(prop, cfg, tier, seed):
                 if i % 997 == 0 and len(samples) < 8: samples.append(l.strip()[:300])
     coverage = dict(
         obligations=len(all_thms), discharged=discharged,
-        checker_cmd='cd lean && lake build ' + ' '.join(cfg['modules']) + '  (+ lake env lean .cache/Audit_%s.lean for #print axioms)' % prop,
+        checker_cmd='cd lean && lake build ' + cfg['modules'][0] + '  (+ lake env lean .cache/Audit_%s.lean for #print axioms)' % prop,
         trusted_base=TRUSTED_BASE,
         theorems=[dict(name=t, axioms=axioms.get(t)) for t in all_thms],
         failing_theorems=failing, theorems_failing_only_for_known_findings=explained_thms,
